@@ -7,3 +7,6 @@ pub assume_specification<T: Ord> [std::cmp::min] (a: T, b: T) -> (r: T)
 
 pub assume_specification<T> [bool::then_some] (b: bool, t: T) -> (r: Option<T>)
     ensures r == if b { Some(t) } else { None::<T> };
+
+pub assume_specification<T: Ord> [std::cmp::max] (a: T, b: T) -> (r: T)
+    ensures r == (if a.cmp_spec(&b) == core::cmp::Ordering::Greater { a } else { b });
